@@ -14,7 +14,7 @@ SPEC = {
     "must_reach": ["PyMatterSim.utils.spherical_harmonics:SphHarm%d" % l for l in range(1, 11)] +
                   ["PyMatterSim.utils.spherical_harmonics:SphHarm_above", "PyMatterSim.utils.spherical_harmonics:sph_harm_l"],
     "floors": {"table_vs_scipy": 2000, "table_vs_own_grid": 10, "band_limit": 10, "oracle_vs_mpmath": 100,
-               "oracle_vs_scipy": 1000, "identities": 1000, "dispatcher": 100, "delegated": 200},
+               "oracle_vs_scipy": 1000, "identities": 1000, "dispatcher": 100, "delegated": 200, "history": 60},
     "insitu": ("sph",),
     "rule": ("l=1..10: every table evaluated on the full-circle 64x64 grid (structure + identity with the own recurrence), "
              "on random angles in [0,pi]x(-pi,pi], the poles and phi in {0,+-pi}; l=11..20 delegated branch on random angles "
@@ -132,6 +132,31 @@ def run(ctx):
                 ctx.check("dispatcher", bool(good), f"sph_harm_l/l=={l}",
                           lambda: f"dispatcher for l={l} returned {'None' if v is None else 'a wrong table'}", {"l": l})
     ctx.extra["max_interpolation_bound_all_angles"] = worst_bound
+    # ---- history: a returned table belongs to the caller; modifying it must not change later results
+    rngh = ctx.rng(77)
+    for l in list(range(1, 11)) + [11, 12, 15]:
+        ms = np.arange(-l, l + 1)
+        for rep in range(3):
+            a, b = float(np.arccos(rngh.uniform(-1, 1))), float(rngh.uniform(-np.pi, np.pi))
+            fns = [("sph_harm_l", lambda: SH.sph_harm_l(l, a, b))]
+            if l <= 10:
+                fns.append((f"SphHarm{l}", lambda: getattr(SH, f"SphHarm{l}")(a, b)))
+            else:
+                fns.append(("SphHarm_above", lambda: SH.SphHarm_above(l, a, b)))
+            for name, f in fns:
+                ok1, v1 = ctx.call(name, f, data={"l": l})
+                if not ok1 or v1 is None:
+                    continue
+                try:
+                    v1 += 1.0 + 2.0j          # the caller normalises / accumulates in place
+                    v1 *= 0.0
+                except Exception:  # noqa: BLE001 read-only results are fine
+                    pass
+                ok2, v2 = ctx.call(name, f, data={"l": l})
+                if ok2:
+                    good = v2 is not None and np.shape(v2) == (2 * l + 1,) and np.abs(np.asarray(v2) - sph_harm_y(l, ms, a, b)).max() <= 1e-10
+                    ctx.check("history", bool(good), f"{name}/history", lambda: f"l={l}: second call with the same angles, after the caller "
+                              "modified the first result in place, no longer returns Y_lm", {"l": l, "theta": a, "phi": b})
     # ---- delegated branch
     rng = ctx.rng(99)
     for l in range(11, 21):
